@@ -37,31 +37,27 @@ HAND = {
     'C20': 'trailing 0xAA not kept; checksum test dropped; noise before a marker not trimmed',
 }
 STEER = {
-    "codec": "Think about what a checker written from the property statement alone would probably NOT try, and aim there: a value "
-             "that is special only for ONE field type or ONE bit width (1-bit, 2-bit, 3-bit, 7-bit, 12-bit, 24-bit, 48-bit, 64-bit "
-             "fields; signed fields with an offset; fields whose resolution is not a power of ten; DATE 65534 / 65535; DURATION; "
-             "FLOAT infinities and NaN; STRING_FIX filled with 0x00 / 0xFF / '@'; empty and maximum-length LAU / LZ strings; "
-             "BINARY fields that are not a whole number of bytes or start at a bit offset that is not a multiple of 8); a "
-             "definition that is the LAST of its PGN in database order, has repeating fields, or has a field after a variable "
-             "length one; lookups with gaps, with an entry numbered 0, or whose names differ only in case or punctuation; "
-             "rounding (banker's rounding, float representation of x.5 steps, -0.0); Python int/float/bool/Decimal confusion; "
-             "the difference between a field's value and raw_value when only one of them is given.",
-    "state": "Think about what a checker written from the property statement alone would probably NOT try, and aim there: three "
-             "or more streams at once; a stream whose source, destination or PGN differs from another only in ONE component; the "
-             "same bytes arriving through two different entry points of one decoder; frame 0 arriving twice, or never; a message "
-             "longer than anything before it on the same stream; exactly 223 bytes / 32 frames; a frame counter above the "
-             "announced length; option combinations (include AND exclude lists given together, a list containing the same entry "
-             "twice or in two forms, an empty string or None in a list, numbers given as strings); claims from source 254 / 255 "
-             "/ 0; a NAME of all zeros or all ones; the same NAME from two sources and then one of them changing; the decoder "
-             "used after an exception escaped from it.",
-    "async": "Think about what a checker written from the property statement alone would probably NOT try, and aim there: TWO "
-             "faults in a row (a second fault while the first is being handled); a fault exactly while a callback, a drain() or "
-             "a back-off sleep is suspended; connect() called twice concurrently; send() racing with the reconnect; close() "
-             "racing with send() or with another close(); callbacks that call back INTO the client (send() or close() from "
-             "inside the receive or status callback); a receive callback replaced while running; an exception class that is a "
-             "subclass of the handled one (or a BaseException such as CancelledError / KeyboardInterrupt-like) ; data that "
-             "arrives in the same loop iteration as EOF; zero-length reads; the 5th or 10th retry (back-off growth and cap); "
-             "what is logged or counted versus what is done.",
+    "codec": "This time aim at DATA rather than logic: nmea2000/pgns.py is generated (about 59 000 lines, 400+ decode_pgn_* and "
+             "encode_pgn_* functions, lookup tables and lookup_encode_* maps). Make a slip of the kind a hand edit, a bad merge or "
+             "a generator template change leaves behind in ONE rarely used definition or table: a bit offset, bit length, mask, "
+             "shift, resolution, offset constant, signedness flag, unit, physical quantity, primary-key flag, field id or field "
+             "order that is wrong in the decoder but not the encoder (or the other way round); a lookup entry missing, duplicated, "
+             "renumbered or spelt differently in the decode table and the encode map; a range bound off by one step; the wrong "
+             "lookup table referenced; a match value wrong in the dispatcher. Choose a definition the test suite never touches "
+             "and make sure the slip is visible only for particular values.",
+    "state": "This time aim at CONFIGURATION and LIFECYCLE: how the decoder / encoder constructors and nmea2000/cli.py or "
+             "ioclient.py pass options down (lists given as tuples, sets, generators or None; entries with surrounding blanks; "
+             "ids with different capitalisation; PGN numbers as strings or floats; the same option given to two decoders; "
+             "options changed after construction through attributes), what a long-lived decoder accumulates (dictionaries that "
+             "only grow, records never deleted, caches without bound) and what differs between the FIRST and the N-th use of "
+             "an object (lazy initialisation, first-call special cases, counters that wrap, state left by the previous call's "
+             "exception).",
+    "async": "This time aim at ORDER and RESOURCES under load: many messages in one read (hundreds of packets in a single "
+             "chunk), a consumer slower than the producer, the internal queue's size and ordering, tasks that are created per "
+             "message or per reconnect and never awaited or cancelled (so they pile up or outlive close()), the order of two "
+             "things that happen in the same loop iteration (data and EOF, status notification and first message, close and "
+             "reconnect timer), fairness between reading and sending, and anything that is correct for the first connection but "
+             "not for the second or third (writer / reader / buffers / tasks / locks / counters carried over or re-created).",
 }
 GROUP = {**{f"C{i:02d}": "codec" for i in (1, 2, 5, 6, 7, 8, 9, 15, 17, 18)}, **{f"C{i:02d}": "state" for i in (3, 4, 10, 11, 16)},
          **{f"C{i:02d}": "async" for i in (12, 13, 14, 19, 20)}}
